@@ -56,10 +56,10 @@ DEEP = {
     "C02": ["CoseProofs.Deep.Tbs"],
     "C03": ["CoseProofs.Deep.Tbs", "CoseProofs.Deep.Tamper", "CoseProofs.SignersTie", "CoseProofs.Deep.Signers"],
     "C04": ["CoseProofs.FactsTie", "CoseProofs.Deep.Tamper"],
-    "C05": ["CoseProofs.Deep.Reencode", "CoseProofs.Deep.Accept", "CoseProofs.Deep.SignMsg"],
+    "C05": ["CoseProofs.Deep.Reencode", "CoseProofs.Deep.Accept", "CoseProofs.Deep.SignMsg", "CoseProofs.Deep.NestedRoundTrip"],
     "C06": ["CoseProofs.Deep.NoPanic"],
     "C07": ["CoseProofs.Deep.Accept", "CoseProofs.Deep.Verifies"],
-    "C08": ["CoseProofs.Deep.Headers", "CoseProofs.Deep.RoundTrip"],
+    "C08": ["CoseProofs.Deep.Headers", "CoseProofs.Deep.RoundTrip", "CoseProofs.Deep.NestedRoundTrip"],
     "C09": ["CoseProofs.Deep.Reencode", "CoseProofs.Deep.SignMsg", "CoseProofs.Deep.ClearRaw"],
     "C11": ["CoseProofs.Deep.SignMsg"],
     "C10": ["CoseProofs.Deep.Tbs", "CoseProofs.FactsTie", "CoseProofs.Deep.Tamper", "CoseProofs.SignersTie"],
